@@ -288,7 +288,12 @@ class FormulaParser(Parser):
     def p_variable_seq(self, p):
         """
         variable_sequence : variable_sequence DECIMAL VARIABLE
+                          | variable_sequence DECIMAL RELATIVE_CELL
+                          | RELATIVE_CELL DECIMAL VARIABLE
+                          | RELATIVE_CELL DECIMAL RELATIVE_CELL
         """
+        # a part of a dotted name may be shaped like a cell reference (rate.q1, q1.rate): the
+        # lexer cannot know, but a cell reference is never followed or preceded by a dot
         p[0] = p[1] if isinstance(p[1], list) else [p[1]]
         p[0].append(p[3])
 
